@@ -18,6 +18,7 @@ FEAS_TIMEOUT_MS = 30_000         # wall-clock safety net only: a 400 ms limit he
                                  # loaded machine, so infeasible paths were explored in some runs and not in others
 VACUITY_RLIMIT = 5_000_000       # second opinion of the vacuity guards (is the path condition itself satisfiable?)
 MAX_PATHS = 4000
+PRUNED_EXPLORATION_S = 60
 
 
 _NL_CACHE = {}
@@ -239,9 +240,15 @@ class Ctx:
     def explore(self, run):
         """run() executes the function once on fresh symbolic inputs.  Called once per path."""
         global CTX
+        t_start = time.time()
         while self.pending:
             if self.paths >= MAX_PATHS:
                 raise CheckerError('%s: more than %d paths; give a helper a contract' % (self.label, MAX_PATHS))
+            if getattr(self, 'pruned', False) and time.time() - t_start > PRUNED_EXPLORATION_S:
+                # an exploration that already abandoned paths (recursive helper without contract) proves nothing:
+                # stop early instead of enumerating thousands of paths
+                raise CheckerError('%s: exploration with an uncontracted recursive helper stopped after %d s and %d '
+                                   'paths; the helper needs a contract' % (self.label, PRUNED_EXPLORATION_S, self.paths))
             dec = self.pending.pop()
             self.reset_path(dec)
             prev, CTX = CTX, self
